@@ -14,7 +14,7 @@ from .interp import (
     ISuper, RevObj, SymMethod, ZipObj, contains_symbolic, ifunc_of, stub_key,
 )
 from .sym import (
-    Fold, Opaque, Poison, Restart, SBool, Seg, SInt, Unsupported, ctx, has_seg, mk_bool, mk_int,
+    Fold, Opaque, Poison, Restart, SBool, Seg, SInt, SymSet, Unsupported, ctx, has_seg, mk_bool, mk_int,
     sym_len, tagstr, zint,
 )
 from .tmpl import STRLIKE, Fn, Hole, Join, Tmpl, is_symstr, tcat
@@ -225,6 +225,13 @@ class Interp:
     # lists: every mutation goes through here so that effects are logged
     def list_method(self, lst, name, args, kwargs):
         c = ctx()
+        if isinstance(lst, SymSet):
+            if name == "add":
+                name = "append"
+            elif name == "update":
+                name = "extend"
+            elif name == "copy":
+                return SymSet(lst)
         if kwargs:
             raise Unsupported("list method keyword arguments")
         fresh = id(lst) in c.fresh_objs
@@ -434,8 +441,14 @@ class Interp:
         if isinstance(obj, Opaque):
             if name in obj.props.get("methods", {}) and name not in obj.fields:
                 return SymMethod(obj, name)
-            v = ops.opaque_getattr(obj, name)
-            return v
+            try:
+                return ops.opaque_getattr(obj, name)
+            except AttributeError as e:
+                raise IRaise(e) from None
+        if isinstance(obj, SymSet):
+            if name in ("add", "update", "copy"):
+                return SymMethod(obj, name)
+            raise Unsupported(f"method {name} of a symbolic set")
         if isinstance(obj, list):
             if name in ("append", "extend", "insert", "pop", "copy", "index", "count", "remove",
                         "sort", "reverse", "clear"):
